@@ -196,7 +196,7 @@ def shrink(case, bucket, budget):
 
 def main(tier, seed, t0):
     quick = tier == "quick"
-    col = core.run_shards(worker, [(seed * 1000 + 1100 + k, 120 if quick else 2500) for k in range(16)])
+    col = core.run_shards(worker, [(seed * 1000 + 1100 + k, 400 if quick else 5000) for k in range(16)])
     need = ["prefix:custom", "prefix:default", "filters>=2", "has-disabled", "has-description", "non-ascii-name"]
     missing = [c for c in need if not col.classes.get(c)]
     if missing:
